@@ -161,6 +161,19 @@ class Tracer:
                     return self._origin_place(a['l'], list(a['p']) + rest, depth + 1)
         return {'o': 'rvalue', 'rv': rv, 'bb': bi, 'si': si, 'p': _norm_proj(p), 'l': l}
 
+    def chain(self, op, limit=30):
+        """Locals an operand's value is copied through: [(local, def bb or None), ...] from the operand back."""
+        out = []
+        pl = place_of(op)
+        while pl is not None and len(out) < limit:
+            l = pl['l']
+            d = self.defs.single(l)
+            out.append((l, d[0] if d else None))
+            if pl['p'] or d is None or d[2] != 'assign' or d[3]['r'] != 'use':
+                break
+            pl = place_of(d[3]['a'])
+        return out
+
     def root_local(self, op):
         """The non-temporary local (or arg) an operand ultimately reads, with field path."""
         o = self.origin(op)
